@@ -39,7 +39,8 @@ RULE = ("product explorer over pairs of runs: a case = (algorithm, member of the
         "real runs.  A pair is admissible when the reference computation (numpy) says the result is determined by the "
         "inputs: CP-ALS reference trajectory with cond(Hadamard-Gram) <= 1e6 and no vanishing component, (ST-)HOSVD / HOOI "
         "reference with eigenvalue gap lambda_r - lambda_{r+1} >= 1e-6 lambda_1, lambda_r >= 1e-9 lambda_1 at every "
-        "update and no eigenvalue tail / fit change within 1e-6 of the threshold; inadmissible pairs are run (crash "
+        "update and no eigenvalue tail / fit change within 1e-6 of the threshold; CP-APR dense-vs-sparse: both runs stable "
+        "under a 1e-12 perturbation of the start (conditioning probe); inadmissible pairs are run (crash "
         "detection) and counted, their numeric verdict is not asserted.  A pair in which both runs abort with the same "
         "exception is consistent.  Non-trivial: an admissible case with a non-zero model and a non-zero residual in "
         "which at least one pair was compared.")
@@ -52,10 +53,13 @@ ASSUMPTIONS = [
     "1e-8*max(1,|f|) (DESIGN 4.3)",
     "random starts: numpy's global stream under np.random.seed(s), s from an enumerated alphabet of three seeds; ARPACK's "
     "internal start vector is NOT fixed (two calls agree up to rounding only; this is what the tolerance is for)",
-    "printed output is captured from sys.stdout (and, for L-BFGS-B's Fortran printing, by redirecting file descriptor 1)",
-    "CP-APR and GCP/L-BFGS-B have no reference trajectory: every pair with finite results is asserted (their branch "
-    "decisions compare quantities far from their thresholds on this data family; a rounding-level tie would show up as "
-    "a failure to be triaged)",
+    "printed output is captured from sys.stdout; runs with L-BFGS-B's Fortran printing (iprint >= 0) are executed in a forked child whose file descriptors 1 and 2 point to /dev/null",
+    "CP-APR has no closed-form reference trajectory (projected Newton / quasi-Newton row solvers with line searches and "
+    "exact-zero tests).  Whether a CP-APR result is determined by its inputs is decided by a conditioning probe on the "
+    "implementation itself: the same presentation is re-run from the start perturbed by ~1e-12 (six fixed patterns); a "
+    "different outcome = decided by rounding = dense-vs-sparse relation not asserted (counted as inadmissible).  The "
+    "printing and same-seed relations compare runs with identical arithmetic and are asserted unconditionally.  "
+    "GCP/L-BFGS-B takes part only in relations with identical arithmetic",
 ]
 BOUNDS = {
     "quick": "shapes (3,4),(2,3,4),(3,3,3); cp_als: 4 members x rank 1..3 x 2 guesses x maxiters {1,2,3} x 3 dimorders x "
@@ -66,10 +70,10 @@ BOUNDS = {
              "{1,3,10}; tucker_als: 4 members x ranks (scalars 1..2, two vectors) x given list / random seeds / nvecs x "
              "maxiters {1,2,3} x stoptol {0,1e-2} x 3 dimorders; gcp_opt L-BFGS-B: Gaussian / Poisson x rank 1..2 x maxiter "
              "{1,2,3} x printitn {1,2,3} x iprint {0,1}; scale in {4, 1/4}; ALL N! mode permutations",
-    "thorough": "adds shapes (4,3,2),(2,2,2,3),(2,3,2,2) (all 24 permutations), maxiters 4, more members / value seeds, second "
+    "thorough": "adds shapes (4,3,2),(2,2,2,3),(2,3,2,2) (all 24 permutations; cp_apr: (2,2,2,3) only), maxiters 4, more members / value seeds, second "
                 "and third guesses everywhere, all N! dimorders as base order for N<=3, sparse holder combined with every "
-                "printing setting, scaling and relabelling, stoptol 1e-4, more GCP objectives (Poisson-log, Rayleigh, Gamma, "
-                "Huber) and rank 3",
+                "printing setting, scaling and relabelling, stoptol 1e-4, more GCP objectives (Poisson-log, Rayleigh, Gamma) "
+                "and rank 3",
 }
 CHUNK = 6
 
@@ -485,7 +489,7 @@ def gen_cases(tier, seed):
                                "dimorder": do, "stoptol": st, "tier": tier, "seed": seed, "perms": pm}
                     if k >= 2:
                         for ini in [{"kind": "random", "s": s} for s in seeds] + [{"kind": "nvecs"}]:
-                            for do in ([None, list(range(N))[::-1]] if th else [None]):
+                            for do in ([None, list(range(N))[::-1]] if (th or ini["kind"] == "random") else [None]):
                                 yield {"check": "tucker_als", "data": d, "rank": rk, "k": k, "init": ini, "dimorder": do,
                                        "stoptol": 0.0, "tier": tier, "seed": seed}
     # ---- gcp_opt with L-BFGS-B
@@ -498,7 +502,7 @@ def gen_cases(tier, seed):
             objs += [("POISSON_LOG", {"fam": "counts", "shape": list(shape), "slice": "first", "vseed": seed}, "als"),
                      ("RAYLEIGH", {"fam": "poscounts", "shape": list(shape), "vseed": seed}, "apr"),
                      ("GAMMA", {"fam": "poscounts", "shape": list(shape), "vseed": seed}, "apr"),
-                     ("HUBER", {"fam": "generic", "shape": list(shape), "vseed": seed + 7}, "als")]
+                     ("GAUSSIAN", {"fam": "generic", "shape": list(shape), "vseed": seed + 7}, "als")]
         for oname, d, gk in objs:
             for R in ((1, 2, 3) if th else (1, 2)):
                 for k in ks:
@@ -509,7 +513,7 @@ def gen_cases(tier, seed):
                         yield {"check": "gcp_opt", "data": d, "objective": oname, "rank": R, "k": k,
                                "init": {"kind": "random", "s": s}, "tier": tier, "seed": seed}
     # ---- cp_apr (most expensive last)
-    for shape in (shapes if not th else SHAPES_Q + [(4, 3, 2), (2, 2, 2, 3)]):
+    for shape in (shapes if not th else SHAPES_Q + [(2, 2, 2, 3)]):
         for d in members(shape, "cp_apr", tier, seed):
             for alg in ("mu", "pdnr", "pqnr"):
                 optsets = [{}, {"maxinneriters": 3}]
@@ -520,6 +524,8 @@ def gen_cases(tier, seed):
                 for R in ((1, 2, 3) if th else (1, 2)):
                     for k in ks:
                         for g in ((0, 1, 2, 3, 4, 5) if th else (0, 1, 2, 3, 4)):
+                            if R == 3 and g not in (0, 3, 4):
+                                continue
                             for o in optsets:
                                 if o and g not in (0, 3):
                                     continue
@@ -597,31 +603,42 @@ def variants(case):
 # real side: one run
 
 
-class _FdSilence:
-    """L-BFGS-B prints from Fortran straight to file descriptors 1 and 2."""
+def _in_silenced_child(fn):
+    """L-BFGS-B prints from Fortran straight to file descriptors 1 and 2, through buffers of the Fortran runtime that
+    are flushed whenever it pleases (also after a redirection has been undone).  Runs with iprint >= 0 are therefore
+    executed in a forked child whose descriptors 1 and 2 point to /dev/null and which leaves through os._exit; the
+    result dictionary comes back through a pipe."""
+    import pickle
 
-    def __enter__(self):
+    r, w = os.pipe()
+    pid = os.fork()
+    if pid == 0:
+        code = 0
         try:
-            sys.stdout.flush()
-        except Exception:  # noqa: BLE001
-            pass
-        try:
-            sys.stderr.flush()
-        except Exception:  # noqa: BLE001
-            pass
-        self.saved = [os.dup(1), os.dup(2)]
-        self.null = os.open(os.devnull, os.O_WRONLY)
-        os.dup2(self.null, 1)
-        os.dup2(self.null, 2)
-        return self
-
-    def __exit__(self, *exc):
-        os.dup2(self.saved[0], 1)
-        os.dup2(self.saved[1], 2)
-        os.close(self.saved[0])
-        os.close(self.saved[1])
-        os.close(self.null)
-        return False
+            os.close(r)
+            null = os.open(os.devnull, os.O_WRONLY)
+            os.dup2(null, 1)
+            os.dup2(null, 2)
+            try:
+                payload = ("ok", fn())
+            except Exception as e:  # noqa: BLE001
+                payload = ("err", type(e).__name__, str(e), short_tb(e))
+            with os.fdopen(w, "wb") as fh:
+                pickle.dump(payload, fh)
+        except BaseException:  # noqa: BLE001
+            code = 1
+        finally:
+            os._exit(code)
+    os.close(w)
+    with os.fdopen(r, "rb") as fh:
+        data = fh.read()
+    os.waitpid(pid, 0)
+    if not data:
+        raise RuntimeError("silenced child died without a result")
+    payload = pickle.loads(data)
+    if payload[0] == "err":
+        raise type(payload[1], (Exception,), {})(payload[2])
+    return payload[1]
 
 
 def _holder(A, kind):
@@ -790,15 +807,16 @@ def run(case, v, start=None):
                 else:
                     init = "random"
                 seeded()
-                fd = _FdSilence() if v.get("iprint", -1) >= 0 else contextlib.nullcontext()
-                with fd:
+
+                def solve():
                     M, M0, info = ttb.gcp_opt(X, R, getattr(Objectives, case["objective"]), LBFGSB(**okw), init=init,
                                               printitn=int(v.get("printitn", 0)))
-                res["U0"] = [np.array(f, dtype=float, copy=True) for f in M0.factor_matrices]
-                res["M"] = rm.kruskal(np.asarray(M.weights), [np.asarray(f) for f in M.factor_matrices])
-                res["obj"] = float(info["final_f"])
-                res["iters"] = int(info["nit"])
-                res["inner"] = [float(info["funcalls"]), float(info["warnflag"])]
+                    return {"U0": [np.array(f, dtype=float, copy=True) for f in M0.factor_matrices],
+                            "M": rm.kruskal(np.asarray(M.weights), [np.asarray(f) for f in M.factor_matrices]),
+                            "obj": float(info["final_f"]), "iters": int(info["nit"]),
+                            "inner": [float(info["funcalls"]), float(info["warnflag"])]}
+
+                res.update(_in_silenced_child(solve) if v.get("iprint", -1) >= 0 else solve())
             else:
                 raise ValueError(alg)
     res["text"] = buf.getvalue()
@@ -819,6 +837,27 @@ def run_safe(case, v, start=None):
 def _benign(e):
     n = type(e).__name__
     return isinstance(e, np.linalg.LinAlgError) or "Arpack" in n
+
+
+def _apr_sensitive(case, v, res, start, amax):
+    """Is the cp_apr result `res` of presentation `v` decided by rounding?  The same presentation is re-run from the
+    start perturbed by ~1e-12 (relative, six fixed patterns; two for MU): a different outcome (other model beyond 1% of
+    the comparison tolerance, other iteration counts, abort vs no abort) means yes."""
+    w0, U0 = start
+    for t in range(2 if case["alg"] == "mu" else 6):
+        pr = run_safe(case, v, start=(w0, _perturbed(U0, t)))
+        if not res.get("ok"):
+            if pr["ok"] or pr["key"] != res["key"]:
+                return True
+        elif not pr["ok"]:
+            return True
+        elif pr["M"].shape != res["M"].shape or not np.all(np.isfinite(pr["M"])) or not np.all(np.isfinite(res["M"])):
+            return True
+        elif float(np.max(np.abs(pr["M"] - res["M"]))) > 0.01 * TOL_M * amax:
+            return True
+        elif pr["iters"] != res["iters"] or pr["inner"] != res["inner"]:
+            return True
+    return False
 
 
 def admissibility(case, base):
@@ -892,29 +931,16 @@ def admissibility(case, base):
             w0, U0 = guess_apr(A.shape, int(case["rank"]), case["init"]["g"], int(case.get("seed", 0)))
         else:
             return False, "no_start", {}
-        # conditioning probe (the only place where admissibility looks at the implementation: the row solvers are
-        #     projected / line-search methods whose branch decisions have no closed form).  The BASE presentation (dense,
-        #     silent) is re-run from the same start perturbed by +-1e-12 (relative): if that already moves the result
-        #     beyond the comparison tolerance, the result is decided by rounding and no relation between two
-        #     presentations is asserted.  The variant under test never takes part in this decision.
-        amax = float(np.max(np.abs(A)))
-        for t in range(2 if case["alg"] == "mu" else 6):
-            pr = run_safe(case, {}, start=(w0, _perturbed(U0, t)))
-            sens = False
-            if not base.get("ok"):
-                sens = pr["ok"] or pr["key"] != base["key"]
-            elif not pr["ok"]:
-                sens = True
-            elif pr["M"].shape != base["M"].shape or not np.all(np.isfinite(pr["M"])) or not np.all(np.isfinite(base["M"])):
-                sens = True
-            elif float(np.max(np.abs(pr["M"] - base["M"]))) > 0.01 * TOL_M * amax:
-                sens = True
-            elif pr["iters"] != base["iters"] or pr["inner"] != base["inner"]:
-                sens = True
-            if sens:
-                # the same arithmetic twice still has to give the same result: print / seed stay asserted
-                return False, "rounding_sensitive", {"exact_ok": True}
-        return True, "", {}
+        # conditioning probe - the only place where admissibility looks at the implementation: the row solvers are
+        # projected / line-search methods with exact-zero tests whose branch decisions have no closed form.  The BASE
+        # presentation (dense, silent) is re-run from the same start perturbed by ~1e-12 (relative): if that already
+        # changes the outcome, the result is decided by rounding and no relation between two DIFFERENT arithmetics is
+        # asserted.  (Before a dense-vs-sparse failure is reported the sparse run is probed in the same way, see
+        # _compare; a genuine difference between the two paths is stable on both sides.)
+        if _apr_sensitive(case, {}, base, (w0, U0), float(np.max(np.abs(A)))):
+            # the same arithmetic twice still has to give the same result: print / seed stay asserted
+            return False, "rounding_sensitive", {"exact_ok": True, "start": (w0, U0)}
+        return True, "", {"start": (w0, U0)}
     return True, "", {}
 
 
@@ -982,102 +1008,114 @@ def run_case(case, ctx):
         adm_case = adm
         adm = bool(adm_case or (extra.get("exact_ok") and rel in ("print", "seed")))
         try:
-            _compare(ctx, case, v, base, other, adm, why, alg, sub_alg, kind, amax, nx2, fail, stats)
+            _compare(ctx, case, v, base, other, adm, why, alg, sub_alg, kind, amax, nx2, fail, stats, extra.get("start"))
         finally:
             adm = adm_case
     compared = stats["compared"]
     _wrapup(ctx, case, base, adm, alg, sub_alg, kind, A, amax, nx2, compared)
 
 
-def _compare(ctx, case, v, base, other, adm, why, alg, sub_alg, kind, amax, nx2, fail, stats):
+def _compare(ctx, case, v, base, other, adm, why, alg, sub_alg, kind, amax, nx2, fail0, stats, start=None):
     rel = v["rel"]
-    if True:
-        # ---- exceptions
-        if not base["ok"] or not other["ok"]:
-            if not base["ok"] and not other["ok"]:
-                if base["key"] == other["key"]:
-                    ctx.count(f"{alg}:both_abort_identically")
-                    ctx.outcome([alg, rel, "both_abort", base["key"][0]])
-                    return
-                if base["key"][0] == other["key"][0] and rel in ("scale", "relabel"):
-                    ctx.count(f"{alg}:both_abort_same_type")      # messages may carry mode numbers / values
-                    return
-            if not adm:
-                ctx.count(f"{alg}:inadmissible_exception_differs")
-                bad = other if not other["ok"] else base
-                if not _benign(bad["exc"]) and not isinstance(bad["exc"], AssertionError):
-                    fail(v, bad["sym"], f"(inadmissible case, {why}) " + bad["msg"])
+    memo = {}
+
+    def fail(vv, symptom, detail):
+        # a pair of DIFFERENT arithmetic (dense / sparse) is asserted only where both runs are determined by their
+        # inputs: before a cp_apr dense-vs-sparse failure is reported, the variant's own conditioning is probed too
+        if alg == "cp_apr" and rel == "sparse" and start is not None:
+            if "s" not in memo:
+                memo["s"] = _apr_sensitive(case, v, other, start, amax)
+            if memo["s"]:
+                ctx.count("cp_apr:inadmissible:rounding_sensitive_variant")
                 return
-            fail(v, "exception_differs",
-                 f"base: {'ok' if base['ok'] else base['msg']} ; variant: {'ok' if other['ok'] else other['msg']}")
-            return
-        if rel == "print":
-            if other["text"]:
-                ctx.flag(f"{alg}:printed")
-            elif v.get("printitn", 0) > 0 and alg not in ("gcp_opt",) or v.get("verbosity", 0) > 0:
-                fail(v, "wrong_value:printout", "a printing run printed nothing")
+        fail0(vv, symptom, detail)
+
+    # ---- exceptions
+    if not base["ok"] or not other["ok"]:
+        if not base["ok"] and not other["ok"]:
+            if base["key"] == other["key"]:
+                ctx.count(f"{alg}:both_abort_identically")
+                ctx.outcome([alg, rel, "both_abort", base["key"][0]])
+                return
+            if base["key"][0] == other["key"][0] and rel in ("scale", "relabel"):
+                ctx.count(f"{alg}:both_abort_same_type")      # messages may carry mode numbers / values
+                return
         if not adm:
-            ctx.outcome([alg, rel, "inadm"])
+            ctx.count(f"{alg}:inadmissible_exception_differs")
+            bad = other if not other["ok"] else base
+            if not _benign(bad["exc"]) and not isinstance(bad["exc"], AssertionError):
+                fail(v, bad["sym"], f"(inadmissible case, {why}) " + bad["msg"])
             return
-        # ---- the start actually used is the same (seeded / generated starts)
-        if rel in ("seed", "print", "sparse") and kind != "given" and alg != "hosvd":
-            same = len(base["U0"]) == len(other["U0"]) and all(
-                (a is None and b is None) or (a is not None and b is not None and a.shape == b.shape
-                                              and (np.array_equal(a, b) if kind == "random" else
-                                                   float(np.max(np.abs(np.abs(a) - np.abs(b)))) <= 1e-8))
-                for a, b in zip(base["U0"], other["U0"]))
-            if not same:
-                fail(v, "init_not_reproducible", f"the generated start differs between the two runs (init={case['init']})")
-                return
-        # ---- expanded models
-        cfac = float(v.get("c", 1.0))
-        Mb, Mo = base["M"], other["M"]
-        if Mb.shape != Mo.shape:
-            fail(v, "wrong_shape", f"model shapes {Mb.shape} vs {Mo.shape}")
+        fail(v, "exception_differs",
+             f"base: {'ok' if base['ok'] else base['msg']} ; variant: {'ok' if other['ok'] else other['msg']}")
+        return
+    if rel == "print":
+        if other["text"]:
+            ctx.flag(f"{alg}:printed")
+        elif v.get("printitn", 0) > 0 and alg not in ("gcp_opt",) or v.get("verbosity", 0) > 0:
+            fail(v, "wrong_value:printout", "a printing run printed nothing")
+    if not adm:
+        ctx.outcome([alg, rel, "inadm"])
+        return
+    # ---- the start actually used is the same (seeded / generated starts)
+    if rel in ("seed", "print", "sparse") and kind != "given" and alg != "hosvd":
+        same = len(base["U0"]) == len(other["U0"]) and all(
+            (a is None and b is None) or (a is not None and b is not None and a.shape == b.shape
+                                          and (np.array_equal(a, b) if kind == "random" else
+                                               float(np.max(np.abs(np.abs(a) - np.abs(b)))) <= 1e-8))
+            for a, b in zip(base["U0"], other["U0"]))
+        if not same:
+            fail(v, "init_not_reproducible", f"the generated start differs between the two runs (init={case['init']})")
             return
-        if not (np.all(np.isfinite(Mb)) and np.all(np.isfinite(Mo))):
-            if np.array_equal(np.isfinite(Mb), np.isfinite(Mo)):
-                ctx.count(f"{alg}:nonfinite_both")
-                return
-            fail(v, "wrong_value:nonfinite", "one run returns non-finite model entries, the other does not")
+    # ---- expanded models
+    cfac = float(v.get("c", 1.0))
+    Mb, Mo = base["M"], other["M"]
+    if Mb.shape != Mo.shape:
+        fail(v, "wrong_shape", f"model shapes {Mb.shape} vs {Mo.shape}")
+        return
+    if not (np.all(np.isfinite(Mb)) and np.all(np.isfinite(Mo))):
+        if np.array_equal(np.isfinite(Mb), np.isfinite(Mo)):
+            ctx.count(f"{alg}:nonfinite_both")
             return
-        stats["compared"] += 1
-        dev = float(np.max(np.abs(Mo - cfac * Mb))) if Mb.size else 0.0
-        lim = TOL_M * amax * cfac
-        bad = dev > lim
-        if bad:
-            fail(v, "wrong_value:model", f"max|M_variant - {cfac:g}*M_base| = {dev:.3g} > {lim:.3g} "
-                                         f"(max|X|={amax:g}, max|M_base|={float(np.max(np.abs(Mb))):.4g})")
-        # ---- ranks (hosvd)
-        if alg == "hosvd" and base["ranks"] != other["ranks"]:
-            fail(v, "wrong_shape", f"core sizes {base['ranks']} vs {other['ranks']} (in the original labelling)")
-        # ---- iteration counts
-        if "iters" in base and base["iters"] != other["iters"]:
-            fail(v, "wrong_iters", f"iteration count {base['iters']} vs {other['iters']}")
-        elif "inner" in base and not bad and rel in ("print", "seed") and base["inner"] != other["inner"]:
-            fail(v, "wrong_iters", f"inner iteration / evaluation counts {base['inner']} vs {other['inner']}")
-        # ---- fit / residual / objective
-        if "fit" in base and not bad:
-            f1, f2 = base["fit"], other["fit"]
-            n1, n2 = base["nres"], other["nres"] / cfac
-            if not (np.isfinite(f1) and np.isfinite(f2)):
-                if not (np.isnan(f1) and np.isnan(f2)) and f1 != f2:
-                    fail(v, "wrong_value:fit", f"fit {f1!r} vs {f2!r}")
-            elif abs((1 - f1) ** 2 - (1 - f2) ** 2) > TOL_R2 or abs(n1 * n1 - n2 * n2) > TOL_R2 * nx2:
-                fail(v, "wrong_value:fit", f"fit {f1!r} vs {f2!r}; normresidual {n1!r} vs {n2!r} (rescaled), ||X||^2={nx2!r}")
-        if "obj" in base and not bad:
-            o1, o2 = base["obj"], other["obj"]
-            if np.isfinite(o1) and np.isfinite(o2):
-                if abs(o1 - o2) > TOL_F * max(1.0, abs(o1)):
-                    fail(v, "wrong_value:objective", f"objective {o1!r} vs {o2!r}")
-            elif not (o1 == o2 or (np.isnan(o1) and np.isnan(o2))):
+        fail(v, "wrong_value:nonfinite", "one run returns non-finite model entries, the other does not")
+        return
+    stats["compared"] += 1
+    dev = float(np.max(np.abs(Mo - cfac * Mb))) if Mb.size else 0.0
+    lim = TOL_M * amax * cfac
+    bad = dev > lim
+    if bad:
+        fail(v, "wrong_value:model", f"max|M_variant - {cfac:g}*M_base| = {dev:.3g} > {lim:.3g} "
+                                     f"(max|X|={amax:g}, max|M_base|={float(np.max(np.abs(Mb))):.4g})")
+    # ---- ranks (hosvd)
+    if alg == "hosvd" and base["ranks"] != other["ranks"]:
+        fail(v, "wrong_shape", f"core sizes {base['ranks']} vs {other['ranks']} (in the original labelling)")
+    # ---- iteration counts
+    if "iters" in base and base["iters"] != other["iters"]:
+        fail(v, "wrong_iters", f"iteration count {base['iters']} vs {other['iters']}")
+    elif "inner" in base and not bad and rel in ("print", "seed") and base["inner"] != other["inner"]:
+        fail(v, "wrong_iters", f"inner iteration / evaluation counts {base['inner']} vs {other['inner']}")
+    # ---- fit / residual / objective
+    if "fit" in base and not bad:
+        f1, f2 = base["fit"], other["fit"]
+        n1, n2 = base["nres"], other["nres"] / cfac
+        if not (np.isfinite(f1) and np.isfinite(f2)):
+            if not (np.isnan(f1) and np.isnan(f2)) and f1 != f2:
+                fail(v, "wrong_value:fit", f"fit {f1!r} vs {f2!r}")
+        elif abs((1 - f1) ** 2 - (1 - f2) ** 2) > TOL_R2 or abs(n1 * n1 - n2 * n2) > TOL_R2 * nx2:
+            fail(v, "wrong_value:fit", f"fit {f1!r} vs {f2!r}; normresidual {n1!r} vs {n2!r} (rescaled), ||X||^2={nx2!r}")
+    if "obj" in base and not bad:
+        o1, o2 = base["obj"], other["obj"]
+        if np.isfinite(o1) and np.isfinite(o2):
+            if abs(o1 - o2) > TOL_F * max(1.0, abs(o1)):
                 fail(v, "wrong_value:objective", f"objective {o1!r} vs {o2!r}")
-        if "kkt" in base and not bad and rel in ("print", "seed") and len(base["kkt"]) == len(other["kkt"]):
-            dk = max((abs(a - b) for a, b in zip(base["kkt"], other["kkt"])), default=0.0)
-            if dk > 1e-7 * max(1.0, max(abs(a) for a in base["kkt"])):
-                fail(v, "wrong_value:kkt", f"reported KKT violations {base['kkt']} vs {other['kkt']}")
-        ctx.flag(f"{alg}:{rel}:compared")
-        ctx.outcome([alg, sub_alg, rel, {key: val for key, val in v.items() if key != "rel"}, "ok" if not bad else "bad"])
+        elif not (o1 == o2 or (np.isnan(o1) and np.isnan(o2))):
+            fail(v, "wrong_value:objective", f"objective {o1!r} vs {o2!r}")
+    if "kkt" in base and not bad and rel in ("print", "seed") and len(base["kkt"]) == len(other["kkt"]):
+        dk = max((abs(a - b) for a, b in zip(base["kkt"], other["kkt"])), default=0.0)
+        if dk > 1e-7 * max(1.0, max(abs(a) for a in base["kkt"])):
+            fail(v, "wrong_value:kkt", f"reported KKT violations {base['kkt']} vs {other['kkt']}")
+    ctx.flag(f"{alg}:{rel}:compared")
+    ctx.outcome([alg, sub_alg, rel, {key: val for key, val in v.items() if key != "rel"}, "ok" if not bad else "bad"])
 
 
 def _wrapup(ctx, case, base, adm, alg, sub_alg, kind, A, amax, nx2, compared):
